@@ -390,7 +390,11 @@ pub fn run(tier: &Tier, args: &[String]) -> i32 {
     let mut runs = Vec::new();
     let mut samples: Vec<Value> = Vec::new();
     let mut total = 0u64;
-    for (variant, disk) in variants {
+    // quick tier: one wall budget for all variants together (a variant gets
+    // an equal share of what is left, at least five seconds)
+    let quick_deadline = std::time::Instant::now() + Duration::from_secs(60);
+    let n_variants = variants.len();
+    for (vi, (variant, disk)) in variants.into_iter().enumerate() {
         if only.as_deref().map(|o| o != variant).unwrap_or(false) {
             continue;
         }
@@ -402,7 +406,12 @@ pub fn run(tier: &Tier, args: &[String]) -> i32 {
             }
         };
         let cap = if tier.thorough { 30_000 } else { 2_500 };
-        let wall = Duration::from_secs(if tier.thorough { 1200 } else { 45 });
+        let wall = if tier.thorough {
+            Duration::from_secs(1200)
+        } else {
+            let left = quick_deadline.saturating_duration_since(std::time::Instant::now());
+            (left / (n_variants - vi) as u32).max(Duration::from_secs(5)).min(Duration::from_secs(45))
+        };
         let xroot = root.join(format!("{variant}-{disk}"));
         std::fs::create_dir_all(&xroot).unwrap();
         let tpl = template.clone();
